@@ -22,25 +22,28 @@ def classify(facts, g, bb, t):
     def derived_from_count(o):
         return any(x[0] == "call" and x[3] == bb for x in origin_walk(o))
     if is_read_impl:
-        # every Ok(..) / direct return value stems from this call, or from another inner read of the same fn
-        rets = []
-        for b2, i, s in g.assigns():
-            if s["lhs"] == {"l": 0, "p": []}:
-                if s["rhs"]["rv"] == "agg" and s["rhs"].get("variant") == "Ok":
-                    rets.append(g.origin(s["rhs"]["ops"][0]))
-                elif s["rhs"]["rv"] == "use":
-                    rets.append(g.origin(s["rhs"]["op"]))
-        for b2, t2 in g.calls():
-            if t2["dest"] == {"l": 0, "p": []}:
-                rets.append(("call", call_name(t2), [g.origin(a) for a in t2["args"]], b2))
-        mine = [o for o in rets if derived_from_count(o)]
-        consts = [o for o in rets if o[0] == "const" and o[1] == 0]
-        inner_reads = {b2 for b2, t2 in g.calls() if t2.get("callee") in ("std::io::Read::read", "std::io::Read::read_vectored")}
-        others = [o for o in rets if o not in mine and o not in consts and not any(x[0] == "call" and x[3] in inner_reads for x in origin_walk(o))
-                  and not (o[0] == "call" and o[1].endswith("from_residual"))]
-        if mine and not others:
+        # path-wise: on every path through this site that returns Ok(v), v is the count some inner read returned on that path;
+        # paths that touch no inner reader may only return Ok(0) (the end-of-stream stub) or an error
+        import absint
+        INNER = ("std::io::Read::read", "std::io::Read::read_vectored")
+        ps = [p for p in absint.explore(g, 0, None, max_paths=2000) if p.end[0] == "return"]
+        mine = other = 0
+        why = None
+        for p in ps:
+            r = absint.deep(p.state, p.ret())
+            inner = [e for e in p.calls() if e[6] in INNER]
+            here = [e for e in inner if e[0] == bb]
+            if r and r[0] == "agg" and r[2] == "Err":
+                continue
+            if inner and any(absint.mentions_call(r, e[4]) for e in inner):
+                mine += 1 if here else 0
+            elif not inner and r and r[0] == "agg" and r[2] == "Ok" and absint.const_of(r[3]["0"]) == 0:
+                pass
+            else:
+                other += 1; why = "returns %s, not a count an inner read returned on that path" % symex_str(r)
+        if mine and not other and not any(p.end[0] == "cut" for p in ps):
             return "PASS-THROUGH", "returns the inner reader's count"
-        return None, "a Read impl whose result does not derive from the inner count (%d derived, %d other)" % (len(mine), len(others))
+        return None, "a Read impl whose result does not derive from the inner count (%d derived, %d other%s)" % (mine, other, "; " + why if why else "")
     if g.in_loop(bb) and dl is not None:
         # the count flows into + / - on a loop-controlling variable, or is only tested for 0/Err
         uses = []
@@ -93,6 +96,12 @@ def classify(facts, g, bb, t):
 from shared import lift_site  # noqa
 
 
+def symex_str(v):
+    import symex
+    return symex.sym_str(v)[:60]
+
+
+
 def run(ctx):
     facts = ctx.facts
     roles.bind(facts)
@@ -116,7 +125,7 @@ def run(ctx):
     import parser_rules as PRS
     rnl = PRS.pmodel(facts).line_reader()
     for g, bb, t in bsites:
-        ok = g.id == rnl.id and g.in_loop(bb)
+        ok = g.id == rnl.id and bytes_next_in_loop(g)
         ctx.ob("C13.1", "%s|bytes" % g.id, "byte-wise reading happens only in the line reader's loop", ok, g.loc(bb))
     # exact / to_end readers are segmentation-independent by contract; list them
     for g, bb, t in facts.all_calls(lambda t: t.get("callee") in ("std::io::Read::read_exact", "std::io::Read::read_to_end", "std::io::Read::read_to_string")):
@@ -178,17 +187,20 @@ def run(ctx):
 
     # a discarding loop must not take bytes beyond the body it discards: whether it would depends on how much of the
     # following message has already arrived, i.e. on segmentation
-    for g, bb, t in sites:
-        if g.rec.get("impl_trait") == T_DROP and g.in_loop(bb):
-            ctr = {s_["lhs"]["l"] for b_, i_, s_ in g.assigns() if not s_["lhs"]["p"] and s_["rhs"]["rv"] == "use" and origin_fields(g.origin(s_["rhs"]["op"])) & {"size", "remaining", "len"}}
-            if not ctr:
-                continue       # drains driven by the decoder's own framing (chunked) have no byte counter
-            okb, why = shared.read_buffer_bounded_by(g, bb, ctr)
-            ctx.ob("C13.2", "%s|discard-bounded" % g.id, "a discarding read asks for at most the bytes still owed to the body being discarded", okb, g.loc(bb), why)
+    import drain_rules as DR
+    sz = [x["name"] for x in facts.adt(ER)["variants"][0]["fields"] if x["ty"] == "usize"]
+    ctx.require(len(sz) == 1, "C13.2: remaining-size field of the length-limited reader")
+    DR.owed_rules(ctx, "C13.2", ER, (1, "*", "." + sz[0]), rules={"bounded": ["C13.2"], "complete": []})
 
     # ---- C13.3 loop-carried parser state in the line reader
     line_reader_rules(ctx, facts, "C13.3")
     return {}
+
+
+def bytes_next_in_loop(f):
+    """the byte iterator is advanced inside a loop (whether it is created once before the loop or anew in every round makes no difference:
+    std::io::Bytes holds no buffer, each `next` is one read of one byte)"""
+    return any(f.in_loop(bb) for bb, t in f.calls() if t.get("callee") == "std::iter::Iterator::next" and re.search(r"^<std::io::Bytes<", call_name(t)))
 
 
 def line_reader_rules(ctx, facts, RULE):
@@ -201,7 +213,7 @@ def line_reader_rules(ctx, facts, RULE):
     bsites = [(bb, t) for bb, t in f.calls() if t.get("callee") == "std::io::Read::bytes"]
     std_lines = [bb for bb, t in f.calls() if t.get("callee") in ("std::io::BufRead::read_until", "std::io::BufRead::read_line")]
     hand_rolled = [bb for bb, t in f.calls() if t.get("callee") in ("std::io::Read::read", "std::io::BufRead::fill_buf", "std::io::BufRead::consume")]
-    ok_bytes = len(bsites) == 1 and f.in_loop(bsites[0][0]) and not hand_rolled
+    ok_bytes = len(bsites) == 1 and bytes_next_in_loop(f) and not hand_rolled
     ok_std = bool(std_lines) and not hand_rolled and not bsites
     ctx.ob(RULE, "%s|byte-wise" % f.id, "the line reader takes its input one byte at a time, or through std's read_until (it can neither split a line at a buffer edge nor swallow the start of the next one)",
            ok_bytes or ok_std, "%s:%d" % (f.file, f.line), None if (ok_bytes or ok_std) else "hand-written scanning of buffered chunks: a CR LF pair straddling two buffer fills cannot be shown to be handled")
